@@ -201,11 +201,12 @@ for _lim in (1, 2):
             MaxSteps=50),
         depth=51)
     FAMILIES["thr-reset%d" % _lim] = dict(
-        cfg=dict(family="thr-reset%d" % _lim, resources=THR_GRAPH, resetThrottle=_lim),
+        cfg=dict(family="thr-reset%d" % _lim, resources=dict(THR_GRAPH, **{"q?n=1": C(P("1")), "q": C(P("0"))}), qnorm={"q?a=1": "n=1", "q?n=1": "n=1"},
+                 resetThrottle=_lim),
         consts=dict(
             Conns=TSet(["c1", "c2", "c3"]), Vers=TSet(["latest"]),
-            Rids=TSet(["a", "b", "d", "e"]), CallRids=TSet(["a"]), ResRids=TSet(["e"]),
-            Names=TSet(["a", "b", "d", "e"]), Keys=TSet(["x", "z"]),
+            Rids=TSet(["a", "b", "d", "e", "q?a=1"]), CallRids=TSet(["a"]), ResRids=TSet(["e"]),
+            Names=TSet(["a", "b", "d", "e", "q"]), Keys=TSet(["x", "z"]),
             Vals=TSet([P("1"), P("2"), X]),
             AccessOuts=TSet(["ok", "ok", "deny", "timeout"]), GetOuts=TSet(["ok", "ok", "notFound", "timeout", "err"]),
             CallOuts=TSet(["ok"]), QueryOuts=TSet(["full"]),
@@ -233,10 +234,10 @@ FAMILIES["life"] = dict(
 EVENT_SHAPES = ["chg-partial", "chg-partial-obj", "chg-badval-first", "chg-ambiguous", "chg-unknown-action", "chg-emptyrid", "chg-badrid",
                 "chg-wildrid", "chg-notobject", "chg-badjson", "chg-null", "chg-novalues", "chg-string", "add-neg", "add-oob", "add-noidx-badval",
                 "add-badvalue", "add-delete-action", "add-stridx", "add-float", "add-huge", "add-badjson", "add-emptyrid", "remove-neg",
-                "remove-oob", "remove-str", "remove-badjson", "evt-noname", "query-nosubject", "query-badjson", "query-numsubject"]
+                "remove-oob", "remove-len", "add-len1", "remove-str", "remove-badjson", "evt-noname", "query-nosubject", "query-badjson", "query-numsubject"]
 REPLY_SHAPES = ["both", "neither", "noresult", "badjson", "empty", "null-result", "model-badvalue", "model-objvalue", "coll-delete", "model-array",
                 "coll-object", "model-emptyrid", "model-wildrid", "error-nocode", "error-string", "get-string", "result-array", "resource-badrid",
-                "resource-empty", "resource-wild", "resource-num", "events-notarray", "events-badevent", "events-badchange", "events-and-model",
+                "resource-empty", "resource-wild", "resource-num", "events-notarray", "events-badevent", "events-removelen", "events-badchange", "events-and-model",
                 "meta-string", "meta-status-str", "meta-header-str"]
 
 FAMILIES["malformed"] = dict(
